@@ -48,19 +48,41 @@ func c19RealProcess(c *Ctx) {
 	st.NOutcomes = int(st.Execs)
 }
 
+// freeAddrs asks the kernel for n loopback ports that are free right now (listen on :0, note, close).
+func freeAddrs(n int) []string {
+	var out []string
+	var ls []net.Listener
+	for i := 0; i < n; i++ {
+		l, err := net.Listen("tcp", "127.0.0.1:0")
+		if err != nil {
+			break
+		}
+		ls = append(ls, l)
+		out = append(out, l.Addr().String())
+	}
+	for _, l := range ls {
+		l.Close()
+	}
+	return out
+}
+
 func c19RealRun(bin string, base int, alarm string) (string, string) {
 	dir := filepath.Join("/verif/.work", fmt.Sprintf("c19real-%d", os.Getpid()))
 	os.RemoveAll(dir)
 	os.MkdirAll(dir, 0o755)
 	defer os.RemoveAll(dir)
-	origins := []*c19Origin{{idx: 0, addr: fmt.Sprintf("127.0.0.1:%d", base)}, {idx: 1, addr: fmt.Sprintf("127.0.0.1:%d", base+1)}}
+	free := freeAddrs(4)
+	if len(free) < 4 {
+		return "harness-no-free-port", ""
+	}
+	origins := []*c19Origin{{idx: 0, addr: free[0]}, {idx: 1, addr: free[1]}}
 	for _, o := range origins {
 		if err := o.start(); err != nil {
 			return "harness-origin-listen", err.Error()
 		}
 		defer o.stop()
 	}
-	alarmAddr := fmt.Sprintf("127.0.0.1:%d", base+2)
+	alarmAddr := free[2]
 	release := make(chan struct{})
 	defer close(release)
 	if alarm != "connection-refused" {
@@ -80,7 +102,7 @@ func c19RealRun(bin string, base int, alarm string) (string, string) {
 		go srv.Serve(ln)
 		defer srv.Close()
 	}
-	pikeAddr := fmt.Sprintf("127.0.0.1:%d", base+3)
+	pikeAddr := free[3]
 	cfg := &config.PikeConfig{
 		Caches:    []config.CacheConfig{{Name: "c1", Size: 100, HitForPass: "5m"}},
 		Upstreams: []config.UpstreamConfig{{Name: "u", Policy: "roundRobin", Servers: []config.UpstreamServerConfig{{Addr: "http://" + origins[0].addr}, {Addr: "http://" + origins[1].addr}}}},
@@ -175,18 +197,22 @@ func c16RealProcess(c *Ctx) {
 		c.Violation("real-process-config-file", "harness-no-binary", "PIKEMC_REALBIN is not set", nil, nil, nil)
 		return
 	}
-	base := 21000 + (os.Getpid()%1100)*8
 	dir := filepath.Join("/verif/.work", fmt.Sprintf("c16real-%d", os.Getpid()))
 	os.RemoveAll(dir)
 	os.MkdirAll(dir, 0o755)
 	defer os.RemoveAll(dir)
-	origin := &c19Origin{idx: 0, addr: fmt.Sprintf("127.0.0.1:%d", base+4)}
+	free := freeAddrs(3)
+	if len(free) < 3 {
+		c.Violation("real-process-config-file", "harness-no-free-port", "", nil, nil, nil)
+		return
+	}
+	origin := &c19Origin{idx: 0, addr: free[0]}
 	if err := origin.start(); err != nil {
 		c.Violation("real-process-config-file", "harness-origin-listen", err.Error(), nil, nil, nil)
 		return
 	}
 	defer origin.stop()
-	addrs := []string{fmt.Sprintf("127.0.0.1:%d", base+5), fmt.Sprintf("127.0.0.1:%d", base+6)}
+	addrs := []string{free[1], free[2]}
 	mk := func(keep ...int) *config.PikeConfig {
 		cfg := &config.PikeConfig{
 			Caches:    []config.CacheConfig{{Name: "c1", Size: 100, HitForPass: "5m"}},
@@ -273,14 +299,22 @@ func c16RealProcess(c *Ctx) {
 			want[k] = true
 		}
 		ok, desc := false, ""
-		for t0 := time.Now(); time.Since(t0) < 20*time.Second && !ok; time.Sleep(300 * time.Millisecond) {
-			ok, desc = true, ""
-			for i, a := range addrs {
-				if want[i] && !serves(a) {
-					ok, desc = false, fmt.Sprintf("server %s of the saved configuration does not serve", a)
-				}
-				if !want[i] && accepts(a) {
-					ok, desc = false, fmt.Sprintf("server %s, removed from the configuration, still accepts connections", a)
+		// (a save is a truncate + write: the watcher may see the file half-written; like an operator would, the harness
+		// saves the same configuration once more if nothing has happened after 20 s — what must not happen is that the
+		// configuration is never applied)
+		for attempt := 0; attempt < 2 && !ok; attempt++ {
+			if attempt == 1 {
+				_ = save(mk(keep...))
+			}
+			for t0 := time.Now(); time.Since(t0) < 20*time.Second && !ok; time.Sleep(300 * time.Millisecond) {
+				ok, desc = true, ""
+				for i, a := range addrs {
+					if want[i] && !serves(a) {
+						ok, desc = false, fmt.Sprintf("server %s of the saved configuration does not serve", a)
+					}
+					if !want[i] && accepts(a) {
+						ok, desc = false, fmt.Sprintf("server %s, removed from the configuration, still accepts connections", a)
+					}
 				}
 			}
 		}
@@ -300,7 +334,7 @@ func c16RealProcess(c *Ctx) {
 				sig = "removed-server-still-listening"
 			}
 			out, _ := os.ReadFile(filepath.Join(dir, "pike.out"))
-			c.Violation("real-process-config-file", sig, fmt.Sprintf("save %d (servers %v of %v): 20 s later %s %s", si, keep, addrs, desc, trunc(out)), nil, map[string]interface{}{"save": si, "servers": keep}, nil)
+			c.Violation("real-process-config-file", sig, fmt.Sprintf("save %d (servers %v of %v), saved twice, 40 s later: %s %s", si, keep, addrs, desc, trunc(out)), nil, map[string]interface{}{"save": si, "servers": keep}, nil)
 			break
 		}
 	}
